@@ -14,12 +14,13 @@ N_Users == {"u1"}
 N_Chans == {"#x"}
 N_Pool == {"a", "m", "mex"}
 N_MyNicks == {"m", "mex", "mx"}
+Yes == TRUE
 \* the full privilege alphabet (simulation)
 S_Privs == {"q", "a", "o", "h", "v"}
 S_PrivSets == {{}, {"o"}, {"v"}, {"o", "v"}, {"q"}, {"q", "o"}, {"a", "v"}, {"h"}, {"h", "v"}}
 StateRec == [phase |-> phase, tried |-> tried, snick |-> snick, nick |-> nick, mem |-> mem, kn |-> kn, uh |-> uh, jn |-> jn,
              topic |-> topic, ktopic |-> ktopic, key |-> key, kkey |-> kkey, lim |-> lim, klim |-> klim, flags |-> flags, kflags |-> kflags, pendMode |-> pendMode, pendWho |-> pendWho,
-             pendNick |-> pendNick, steps |-> steps]
+             pendNick |-> pendNick, trk |-> trk, steps |-> steps]
 Emit == PrintT("EDGE " \o ToJson([f |-> StateRec, o |-> lastOp', t |-> StateRec', view |-> View']))
 MCView == state
 =============================================================================
